@@ -11,6 +11,7 @@ import (
 	"os/exec"
 	"path/filepath"
 	"strings"
+	"time"
 
 	"github.com/folbricht/desync"
 
@@ -36,9 +37,10 @@ func main() {
 		Run:             run,
 		ParentSetup:     parentSetup,
 		Setup:           childSetup,
+		SpinIsViolation: true,
 		MinNonTrivial:   20,
 		RaceIsViolation: true,
-		CaseTimeout:     0,
+		CaseTimeout:     300 * time.Second,
 	})
 }
 
